@@ -62,6 +62,40 @@ func runFail(f []string) (obs string) {
 	return runProc("", 0, instances, workUs, bufBytes, after)
 }
 
+// stalled fires when the process made no progress for 45 s: its side log (one unbuffered line per report) did not
+// grow.  A fixed wall-clock bound would call a long run on a loaded machine a hang (thorough tier: 280000 shots
+// of 50 us took more than 45 s next to twenty other jobs); "no report for 45 s and no exit" is load independent:
+// after a signal or a failure the reports stop and the process has at most its own await timeouts left.
+func stalled(side string, stop <-chan struct{}) <-chan struct{} {
+	ch := make(chan struct{})
+	go func() {
+		last := int64(-1)
+		idle := 0
+		for {
+			select {
+			case <-stop:
+				return
+			case <-time.After(time.Second):
+			}
+			var sz int64
+			if st, err := os.Stat(side); err == nil {
+				sz = st.Size()
+			}
+			if sz != last {
+				last = sz
+				idle = 0
+				continue
+			}
+			idle++
+			if idle >= 45 {
+				close(ch)
+				return
+			}
+		}
+	}()
+	return ch
+}
+
 func runProc(sigName string, delay, instances, workUs, bufBytes, failAfter int) (obs string) {
 	bin := os.Getenv("PANDORA_VERIF_BIN")
 	if bin == "" {
@@ -130,6 +164,7 @@ log:
 	}
 	done := make(chan error, 1)
 	go func() { done <- cmd.Wait() }()
+	done2 := make(chan struct{})
 	exit := ""
 	select {
 	case err := <-done:
@@ -150,11 +185,12 @@ log:
 		default:
 			exit = fmt.Sprintf("rc%d", rc)
 		}
-	case <-time.After(45 * time.Second):
+	case <-stalled(side, done2):
 		_ = cmd.Process.Kill()
 		<-done
 		exit = "hang"
 	}
+	close(done2)
 
 	// side log: "<id> <pre>"
 	pre := map[uint64]bool{}
